@@ -19,7 +19,7 @@ TReset == /\ IsEvent("reset")
 TAdd == IsEvent("add") /\ Add(Ev.tx) /\ lastRes' = Ev.res /\ Logged
 TRemove == IsEvent("remove") /\ Remove(Ev.tx) /\ lastRes' = Ev.res /\ Logged
 \* which pending transaction is the most urgent one is not part of the property: any pending transaction is accepted (SAFE mode)
-TPick == IsEvent("pick") /\ PickAnyPending /\ lastAct' = <<"pick", Ev.node>> /\ lastRes' = Ev.res /\ Logged
+TPick == IsEvent("pick") /\ PickAnyPending(Ev.node) /\ lastRes' = Ev.res /\ Logged
 TTxForNode == IsEvent("txfornode") /\ GetTxForNode(Ev.node) /\ lastRes' = Ev.res /\ Logged
 TConfirm == IsEvent("confirm") /\ Confirm(Ev.node) /\ Logged
 TDidConfirm == IsEvent("didconfirm") /\ DidConfirm(Ev.node) /\ lastRes' = Ev.res /\ Logged
